@@ -2,6 +2,8 @@ import Flowjaxv.Proofs.Docs
 import Flowjaxv.Proofs.Rqs
 import Flowjaxv.Proofs.Planar
 import Flowjaxv.Proofs.Triangular
+import Flowjaxv.Proofs.TriangularGen
+import Flowjaxv.Proofs.PermGen
 /-!
 # C07 — elementary bijections compute their documented functions
 
@@ -205,5 +207,132 @@ theorem triangular_doc_instance :
   simp [Tri.ofRaw, Params.triangularOfRaw, Params.toTriangular, Tri.TriAffine.transform, Tri.matVec,
     ParamsPf.jdot_eq, ParamsPf.softplusRaw_unwrap, List.ofFn_succ, List.zipIdx]
   norm_num
+
+section TriangularGen
+/-! ## TriangularAffine REGENERATED (`Gen/TriangularGen.lean`): the documented function on the generated definitions -/
+
+/-- `triangular_doc` on the GENERATED `transform`: `A x + b` in Mathlib's matrix–vector product -/
+theorem gen_triangular_doc {n : ℕ} {t : TriangularAffine ℝ} (h : TriPf.TriWF n (TriGenPf.toModel t)) (x : Fin n → ℝ) :
+    t.transform (List.ofFn x) = List.ofFn (Matrix.mulVec (TriPf.toMat n t.triangular) x + VecLd.toVec n t.loc) :=
+  TriPf.transform_ofFn h x
+
+/-- `triangular_ctor_doc` on the generated `_to_triangular` / `BijectionReparam.unwrap` / `transform`: with raw diagonal parameters
+`raw`, `A` is `softplus rawᵢ` on the diagonal, `arr`'s entries strictly inside the triangle chosen by `lower`, exactly 0 in the other
+triangle (a `tril(k=0)` or a swapped orientation in the source falsifies `TriGenPf.gen_toTriangular_eq`). -/
+theorem gen_triangular_ctor_doc {n : ℕ} (lower : Bool) (raw : List ℝ) (arr : List (List ℝ)) (loc : List ℝ)
+    (hsq : TriPf.Square n arr) (hr : raw.length = n) (hl : loc.length = n) (x : Fin n → ℝ) :
+    (TriGen.unwrap (TriGen.ofRaw lower raw arr loc)).transform (List.ofFn x)
+      = List.ofFn (Matrix.mulVec (Matrix.of fun (i j : Fin n) =>
+          if j = i then Real.log (1 + Real.exp (raw.getD i 0))
+          else if (if lower then j < i else i < j) then TriPf.entry arr i j else 0) x + VecLd.toVec n loc) := by
+  rw [TriGenPf.gen_transform_eq, TriGenPf.gen_ofRaw_eq lower raw arr loc (TriGenPf.square_rows hsq hr)]
+  exact triangular_ctor_doc lower raw arr loc hsq hr hl x
+
+/-- the generated constructor reproduces its argument: for a square matrix with positive diagonal the unwrapped `triangular` is the
+requested triangle of `arr` INCLUDING its diagonal (`softplus (softplus⁻¹ d) = d`), and `loc` is stored broadcast. -/
+theorem gen_triangular_init_doc {n : ℕ} (loc : List ℝ) (m : List (List ℝ)) (lower : Bool) (hsq : TriPf.Square n m)
+    (hpos : ∀ i, i < n → 0 < TriPf.entry m i i) {s : TriangularAffineStored ℝ}
+    (h : TriangularAffine.init loc (.mat m) lower = .ok s) (i j : ℕ) (hi : i < n) (hj : j < n) :
+    TriPf.entry (TriGen.unwrap s).triangular i j
+      = if j = i then TriPf.entry m i i else if (if lower then j < i else i < j) then TriPf.entry m i j else 0 := by
+  obtain ⟨hs, _, _⟩ := TriGenPf.gen_init_ok loc m lower h
+  have hd : (TriPrims.diag m).length = n := by simp [TriPrims.diag, hsq.1]
+  have e : (TriGen.unwrap s).triangular = (TriGenPf.toModel (TriGen.unwrap s)).triangular := rfl
+  rw [e, hs, TriGenPf.gen_ofRaw_eq lower _ m _ (TriGenPf.square_rows hsq (by simpa using hd))]
+  show TriPf.entry (Params.triangularOfRaw lower _ m) i j = _
+  rw [Params.triangularOfRaw, TriPf.entry_toTriangular lower _ m hsq (by simpa using hd) hi hj]
+  by_cases hji : j = i
+  · subst hji
+    have hlt : j < (TriPrims.diag m).length := by omega
+    have hmj : j < m.length := by rw [hsq.1]; exact hi
+    have e2 : (if (if lower = true then j < j else j < j) then TriPf.entry m j j else 0) = 0 := by cases lower <;> simp
+    rw [if_pos rfl, if_pos rfl, e2, add_zero, List.getD_eq_getElem?_getD, List.getElem?_eq_getElem (by simpa using hlt)]
+    simp only [List.getElem_map, Option.getD_some]
+    have hdj : (TriPrims.diag m)[j] = TriPf.entry m j j := by
+      simp [TriPrims.diag, TriPf.entry, List.getD_eq_getElem?_getD, List.getElem?_eq_getElem hmj]
+    rw [hdj]
+    exact ParamsPf.softplusInit_unwrap (hpos j hi)
+  · simp [hji]
+
+/-- the generated inverse solves the triangular system: `A · inverse(y) + loc = y` -/
+theorem gen_triangular_inverse_doc {n : ℕ} {t : TriangularAffine ℝ} (h : TriPf.TriWF n (TriGenPf.toModel t)) (y : List ℝ)
+    (hy : y.length = n) :
+    List.zipWith (fun a b => a + b) (TriPrims.matVec t.triangular (t.inverse y)) t.loc = y := by
+  rw [TriGenPf.gen_inverse_eq]
+  exact (TriPf.triangular_lawful (C := Unit) h).right y hy ()
+
+/-- non-vacuity, on the generated definitions: raw diagonal `(0, 0)`, `arr = [[9,9],[1,9]]`, `lower = True`, `loc = (5, 7)` -/
+theorem gen_triangular_doc_instance :
+    (TriGen.unwrap (TriGen.ofRaw true [0, 0] [[9, 9], [1, 9]] [(5 : ℝ), 7])).transform (List.ofFn ![1, 1])
+      = [Real.log 2 + 5, 1 + Real.log 2 + 7] := by
+  rw [TriGenPf.gen_transform_eq, TriGenPf.gen_ofRaw_eq true _ _ _ (by simp)]
+  exact triangular_doc_instance
+
+end TriangularGen
+
+section PermGen
+/-! ## Permute REGENERATED (`Gen/PermGen.lean`, translator `py2perm.py`): `__init__` in exception-valued form (the
+`eqx.error_if(permutation, permutation.ravel().sort() != jnp.arange(permutation.size))` check, `jnp.unravel_index` index tuples,
+`inverse_permutation` from `jnp.argsort`) and the four methods, on n-d arrays (shape + row-major data). -/
+open PermPrims Gen.PermGen
+
+/-- **generated = hand model** `Model/Perm.lean`: for a permutation array of any rank ≥ 1 / any shape that the generated constructor
+accepts and every input of that shape, `x[self.permutation]` / `y[self.inverse_permutation]` are the flat model's `fwd` / `inv`, the
+results have the declared shape, and both log-dets are 0. -/
+theorem gen_permute_eq_model (p : IArr) (hwf : p.data.length = prod p.shape) (hne : p.shape ≠ []) {s : Permute}
+    (h : Permute.init p = .ok s) (x : FArr ℝ) (hx : x.shape = p.shape) :
+    (p.data.map Int.toNat).Perm (List.range (p.data.map Int.toNat).length) ∧ s.shape = p.shape ∧
+    (s.transform x).data = PermModel.fwd (p.data.map Int.toNat) x.data ∧ (s.transform x).shape = p.shape ∧
+    (s.inverse x).data = PermModel.inv (p.data.map Int.toNat) x.data ∧ (s.inverse x).shape = p.shape ∧
+    s.transform_and_log_det x = (s.transform x, 0) ∧ s.inverse_and_log_det x = (s.inverse x, 0) :=
+  PermGenPf.gen_permute_eq_model p hwf hne h x hx
+
+/-- `permute_doc` on the generated `transform`: on the flattened arrays `y[i] = x[perm[i]]`, every rank ≥ 1 -/
+theorem gen_permute_doc (p : IArr) (hwf : p.data.length = prod p.shape) (hne : p.shape ≠ []) {s : Permute}
+    (h : Permute.init p = .ok s) (x : FArr ℝ) (hx : x.shape = p.shape) (hxl : x.data.length = p.data.length)
+    (i : Nat) (hi : i < p.data.length) :
+    (s.transform x).data[i]? = x.data[(p.data.map Int.toNat)[i]'(by simpa using hi)]? := by
+  obtain ⟨hP, _, hf, _⟩ := gen_permute_eq_model p hwf hne h x hx
+  have hlt : (p.data.map Int.toNat)[i]'(by simpa using hi) < x.data.length := by
+    have := hP.mem_iff.mp (List.getElem_mem (l := p.data.map Int.toNat) (by simpa using hi))
+    rw [hxl]; simpa using this
+  have hlt' : (p.data[i]).toNat < x.data.length := by simpa using hlt
+  rw [hf]
+  simp [PermModel.fwd, List.getD_eq_getElem?_getD, List.getElem?_eq_getElem hi, List.getElem?_eq_getElem hlt']
+
+/-- `permute_inverse` on the generated methods: `inverse(transform(x)) = x` and `transform(inverse(y)) = y` on the data, for every
+accepted permutation array of every rank ≥ 1 and shape. -/
+theorem gen_permute_inverse (p : IArr) (hwf : p.data.length = prod p.shape) (hne : p.shape ≠ []) {s : Permute}
+    (h : Permute.init p = .ok s) (x : FArr ℝ) (hx : x.shape = p.shape) (hxl : x.data.length = p.data.length) :
+    (s.inverse (s.transform x)).data = x.data ∧ (s.transform (s.inverse x)).data = x.data := by
+  obtain ⟨hP, _, hf, hfs, hi, his, _⟩ := gen_permute_eq_model p hwf hne h x hx
+  obtain ⟨_, _, _, _, hi', _⟩ := gen_permute_eq_model p hwf hne h (s.transform x) hfs
+  obtain ⟨_, _, hf', _⟩ := gen_permute_eq_model p hwf hne h (s.inverse x) his
+  have hl : x.data.length = (p.data.map Int.toNat).length := by simpa using hxl
+  rw [hi', hf, hf', hi]
+  exact ⟨PermModel.inv_fwd _ hP _ hl, PermModel.fwd_inv _ hP _ hl⟩
+
+/-- `permute_ctor_accepts_iff` on the generated `__init__`: accepted exactly for the permutations of `0 … size−1` (flattened), any
+rank / shape; the only exception it can raise is `eqx.error_if`'s. -/
+theorem gen_permute_ctor_accepts_iff (p : IArr) :
+    (∃ s, Permute.init p = .ok s) ↔ p.data.Perm ((List.range p.data.length).map Int.ofNat) := by
+  rw [PermGenPf.gen_init_accepts_iff, ParamsPf.permuteRejects_iff]
+
+/-- rank 0 (the case `gen_permute_eq_model` excludes): an accepted 0-d permutation array stores empty index tuples and both methods are
+the identity (`x[()] = x`) — what the real class does for `Permute(jnp.array(0))`. -/
+theorem gen_permute_rank0 (p : IArr) (h0 : p.shape = []) {s : Permute} (h : Permute.init p = .ok s) (x : FArr ℝ) :
+    s.shape = [] ∧ s.transform x = x ∧ s.inverse x = x :=
+  PermGenPf.gen_permute_rank0 p h0 h x
+
+/-- non-vacuity: a 2 × 2 permutation array is accepted and inverted; a repeated entry is rejected -/
+theorem gen_permute_instance :
+    (∃ s, Permute.init ⟨[2, 2], [2, 0, 3, 1]⟩ = .ok s ∧
+      (s.inverse (s.transform ⟨[2, 2], [10, 20, 30, (40 : ℝ)]⟩)).data = [10, 20, 30, 40]) ∧
+    ¬ (∃ s, Permute.init ⟨[2, 2], [2, 0, 2, 1]⟩ = .ok s) := by
+  refine ⟨?_, fun h => absurd ((gen_permute_ctor_accepts_iff _).mp h) (by decide)⟩
+  obtain ⟨s, hs⟩ := (gen_permute_ctor_accepts_iff ⟨[2, 2], [2, 0, 3, 1]⟩).mpr (by decide)
+  exact ⟨s, hs, (gen_permute_inverse _ (by decide) (by decide) hs ⟨[2, 2], [10, 20, 30, 40]⟩ rfl rfl).1⟩
+
+end PermGen
 
 end C07
